@@ -11,6 +11,7 @@ pub mod type_annotation;
 
 mod names {
 	use java_string::{JavaCodePoint, JavaStr};
+	use crate::tree::field::FieldDescriptorSlice;
 
 	const DOT: JavaCodePoint = JavaCodePoint::from_char('.');
 	const SEMICOLON: JavaCodePoint = JavaCodePoint::from_char(';');
@@ -22,9 +23,7 @@ mod names {
 	/// Checks if a class name is valid according to JVMS 4.2.1 (also accepting array class names).
 	pub(super) fn is_valid_class_name(x: &JavaStr) -> bool {
 		if x.starts_with('[') {
-			// TODO: max 255 [ are allowed
-			// TODO: must be a field desc
-			true
+			is_valid_arr_class_name(x)
 		} else {
 			// a list of identifiers split by /
 			// each identifier must be an unqualified name
@@ -34,13 +33,10 @@ mod names {
 
 	/// Checks if a class name is a valid array class name according to JVMS 4.2.1
 	pub(super) fn is_valid_arr_class_name(x: &JavaStr) -> bool {
-		if x.starts_with('[') {
-			// TODO: max 255 [ are allowed
-			// TODO: must be a field desc
-			true
-		} else {
-			false
-		}
+		// The name of an array class is the field descriptor of the array type (JVMS 4.2.1),
+		// which has at most 255 dimensions (JVMS 4.3.2); `parse` checks both.
+		// SAFETY: `parse` is the validity check here; nothing else is done with the unchecked slice.
+		x.starts_with('[') && unsafe { FieldDescriptorSlice::from_inner_unchecked(x) }.parse().is_ok()
 	}
 
 	/// Checks if a class name is a valid object class name according to JVMS 4.2.1
